@@ -74,6 +74,9 @@ func (x *exec) onStore(addr *value) {
 	if x.frozen != nil && x.frozen[addr] {
 		x.frozenWrite()
 	}
+	if x.spec > 0 {
+		x.specStore(addr)
+	}
 	if x.gtrace != nil {
 		x.gtrace.store(addr)
 	}
